@@ -173,3 +173,60 @@ _run_before_r5 = run
 def run(ctx):
     _run_before_r5(ctx)
     r5_move_list(ctx)
+
+
+def r6_optional_fields(ctx):
+    """a field declared optional (Option<..>) may be absent"""
+    rid = "C19.R6"
+    ctx.rule(rid, "no derived deserializer of the API types demands the presence of a field whose Rust type is Option<..>: the generated visit_map falls back to the absent-is-None helper for it, not to Error::missing_field (a deserialize_with attribute without `default` turns an optional field into a required one)", floor=2)
+    from ..expr import Exprs, leaves
+    prog = ctx.prog
+    def camel(n):
+        parts = n.split("_")
+        return parts[0] + "".join(p[:1].upper() + p[1:] for p in parts[1:])
+    optional = {}      # wire name -> [(type, rust field)]
+    nfields = 0
+    for k, a in prog.adts.items():
+        if not k.startswith("inkayaku_lichess_api::"):
+            continue
+        for v in a.get("variants", []):
+            for fld in v.get("fields", []):
+                nfields += 1
+                if (fld.get("ty") or "").replace("core::", "std::").startswith("std::option::Option<"):
+                    for w in {fld["name"], camel(fld["name"])}:
+                        optional.setdefault(w, []).append((k.rsplit("::", 1)[-1] + "::" + (v.get("name") or ""), fld["name"]))
+    hard, soft = [], 0
+    for k, f in prog.fns.items():
+        if not k.startswith(API) or "Deserialize" not in k:
+            continue
+        ex = None
+        for b in f["blocks"]:
+            t = b["term"]
+            if b["cleanup"] or t["k"] != "call":
+                continue
+            key = (t["callee"].get("orig") or t["callee"].get("key") or "")
+            if not key.endswith("missing_field"):
+                continue
+            ex = ex or Exprs(f)
+            names = [x[1] for a_ in t["args"] for x in leaves(ex.operand(a_)) if x[0] == "c" and isinstance(x[1], str)]
+            if "::private::" in key or "__private" in key:
+                soft += 1
+                continue
+            for n in names:
+                hard.append((n, k))
+    ctx.ob(rid, "matcher-control", soft >= 10 and nfields >= 30 and len(optional) >= 5,
+           "" if (soft >= 10 and nfields >= 30 and len(optional) >= 5) else "the derived deserializers / ADT facts were not recognised (absent-is-default helper calls %d, fields %d, optional fields %d)" % (soft, nfields, len(optional)), "",
+           sample={"helper_calls": soft, "fields": nfields, "optional_fields": len(optional)})
+    bad = [(n, k) for n, k in hard if n in optional]
+    ctx.ob(rid, "optional-fields-may-be-absent", not bad,
+           "" if not bad else "the deserializer %s answers `missing field` when the key %s is absent, although the field is declared %s: a message without it (the API omits optional fields) no longer decodes" % (
+               bad[0][1].split("::<")[0].rsplit("::", 1)[-1] if bad else "", sorted({n for n, _ in bad}), sorted({"%s.%s: Option" % o for n, _ in bad for o in optional[n]})[:3]),
+           "", sample={"hard_required_keys": sorted({n for n, _ in hard})})
+
+
+_run_before_r6 = run
+
+
+def run(ctx):
+    _run_before_r6(ctx)
+    r6_optional_fields(ctx)
